@@ -280,6 +280,15 @@ impl SortableStrVec {
         if offset > (CompactEntry::MAX_OFFSET >> 1) && offset + length > CompactEntry::MAX_OFFSET {
             return Err(ZiporaError::out_of_memory(offset + length));
         }
+        // The length field of a CompactEntry is 20 bits wide: a longer string would
+        // overflow into the sequence-id bits and read back truncated.
+        if length > CompactEntry::MAX_LENGTH {
+            return Err(ZiporaError::invalid_data(format!(
+                "String length {} exceeds the maximum of {} bytes",
+                length,
+                CompactEntry::MAX_LENGTH
+            )));
+        }
 
         // Simplified sequence ID (faster than atomic ops for each string)
         let seq_id = (self.entries.len() & 0xF) as u8;
